@@ -13,6 +13,7 @@ import (
 	"path/filepath"
 	"regexp"
 	"runtime"
+	"runtime/pprof"
 	"sort"
 	"strings"
 	"time"
@@ -37,12 +38,19 @@ func envOr(k, d string) string {
 }
 
 func main() {
+	if pf := os.Getenv("VERIF_PROF"); pf != "" {
+		f, _ := os.Create(pf)
+		pprof.StartCPUProfile(f)
+		defer pprof.StopCPUProfile()
+	}
 	if len(os.Args) < 2 {
 		usage()
 	}
 	switch os.Args[1] {
 	case "run":
-		os.Exit(cmdRun(os.Args[2:]))
+		rc := cmdRun(os.Args[2:])
+		pprof.StopCPUProfile()
+		os.Exit(rc)
 	case "replay":
 		os.Exit(cmdReplay(os.Args[2:]))
 	default:
@@ -260,8 +268,12 @@ func cmdRun(args []string) int {
 		if *verbose {
 			fmt.Fprintf(os.Stderr, "%s: paths=%d aborted=%d decisions=%d asserts=%d(+%d concrete) unknown=%d viol=%d inconclusive=%d wall=%.1fs solver=%.1fs\n",
 				h.name, r.Paths, r.Aborted, r.Decisions, r.Asserts, r.ConcAsserts, r.Unknown, len(r.Violations), len(r.Inconclusive), r.Wall.Seconds(), r.SolverWall.Seconds())
+			seen := map[string]int{}
 			for _, s := range r.Inconclusive {
-				fmt.Fprintln(os.Stderr, "   inconclusive:", s)
+				seen[s]++
+			}
+			for s, n := range seen {
+				fmt.Fprintf(os.Stderr, "   inconclusive (x%d): %s\n", n, s)
 			}
 		}
 	}
